@@ -298,6 +298,52 @@ def two_roots(task):
     return viol, 4
 
 
+def two_grammars(_task):
+    """One process serves the default grammar and a project whose config names its own grammar file (a copy in which the
+    rule pass_stmt is called noop_stmt). Every tree - parsed, or restored from that project's cache by a later session - is
+    built with the grammar of its own project: the tag names tell (an oracle independent of tranp)."""
+    import shutil
+    import tempfile
+    from mc.core.runner import REPO
+    from mc.tranp.session import Session, ensure_workdir
+    from rogw.tranp.lang.module import to_fullyname
+    from rogw.tranp.syntax.ast.finder import ASTFinder
+    from rogw.tranp.syntax.ast.parser import ParserSetting, SyntaxParser
+    root_a = ensure_workdir()
+    root_b = tempfile.mkdtemp(prefix='tranp-verif-grammar-')
+    pkg = f'c15g{os.getpid()}'
+    mod = f'{pkg}.m'
+    src = 'def f() -> None:\n\tpass\n'
+    viol = []
+    try:
+        os.symlink(os.path.join(REPO, 'data'), os.path.join(root_b, 'data'))
+        with open(os.path.join(REPO, 'data', 'grammar.lark')) as f:
+            gtext = f.read()
+        assert 'pass_stmt' in gtext
+        os.makedirs(os.path.join(root_b, 'gram'))
+        with open(os.path.join(root_b, 'gram', 'grammar.lark'), 'w') as f:
+            f.write(gtext.replace('pass_stmt', 'noop_stmt'))
+        for root in (root_a, root_b):
+            os.makedirs(os.path.join(root, pkg), exist_ok=True)
+            with open(os.path.join(root, pkg, 'm.py'), 'w') as f:
+                f.write(src)
+        custom = {to_fullyname(ParserSetting): lambda: ParserSetting(grammar='gram/grammar.lark')}
+        for step, (name, root, defs, want, other) in enumerate((('default', None, None, 'pass_stmt', 'noop_stmt'), ('project', root_b, custom, 'noop_stmt', 'pass_stmt'),
+                                                             ('project', root_b, custom, 'noop_stmt', 'pass_stmt'), ('default', None, None, 'pass_stmt', 'noop_stmt'))):
+            sess = Session({}, cache=True, root=root, extra_defs=defs)
+            tags = {p.split('.')[-1].split('[')[0] for p in ASTFinder().full_pathfy(sess.get(SyntaxParser)(mod)).keys()}
+            if want not in tags or other in tags:
+                viol.append((['two-grammars', f'{name}-grammar-session-got-{other}', f'step={step}'], f'session {step} ({name} grammar): the tree of "def f() -> None: pass" has the tags {sorted(t for t in tags if t.endswith("_stmt"))}, its grammar calls the rule {want}', {'two_grammars': True}))
+                break
+    except Exception as e:  # noqa
+        viol.append((['two-grammars', 'raises', type(e).__name__], f'{type(e).__name__}: {str(e)[:200]}', {'two_grammars': True}))
+    finally:
+        os.chdir(root_a)
+        shutil.rmtree(root_b, ignore_errors=True)
+        shutil.rmtree(os.path.join(root_a, pkg), ignore_errors=True)
+    return viol, 4
+
+
 def tree_worker(batch):
     out = []
     for t in batch:
@@ -346,13 +392,16 @@ def run(ctx):
     for viol, cnt in res3:
         n_two += cnt
         ctx.merge(viol)
+    for viol, cnt in pool.pmap(two_grammars, [0], workers=1):
+        n_two += cnt
+        ctx.merge(viol)
     sviol, n_syn = synthetic_layer()
     ctx.merge(sviol)
     return {
         'evaluations': n + len(batches) + n_syn,
         'synthetic_trees': n_syn,
         'distinct_nontrivial': n,
-        'rule': 'every sentence of the enumerated corpus (expressions <= 2 operator applications, statement templates) and every real module (library stubs, example, fixtures) accepted by the working-tree grammar; each tree through dumps/json/loads, EntryStored.save/load and the on-disk cache path (store in one session, restore in a second whose source provider raises); non-trivial = tree accepted by lark (>= 3 entries); synthetic layer: every hand-built lark tree with <= 4 entries below the root (leaves: tokens, missing optionals, childless rules), every leaf position x token values {SYN_VALUES} (what a project grammar keeping layout tokens produces: tokens with empty text), through dumps/loads and EntryStored; two project directories served by one process (same module path and mtime, different text; sessions A, B, A, B): every session sees the tree of the file in its own directory',
+        'rule': 'every sentence of the enumerated corpus (expressions <= 2 operator applications, statement templates) and every real module (library stubs, example, fixtures) accepted by the working-tree grammar; each tree through dumps/json/loads, EntryStored.save/load and the on-disk cache path (store in one session, restore in a second whose source provider raises); non-trivial = tree accepted by lark (>= 3 entries); synthetic layer: every hand-built lark tree with <= 4 entries below the root (leaves: tokens, missing optionals, childless rules), every leaf position x token values {SYN_VALUES} (what a project grammar keeping layout tokens produces: tokens with empty text), through dumps/loads and EntryStored; two project directories served by one process (same module path and mtime, different text; sessions A, B, A, B): every session sees the tree of the file in its own directory; one process serving the default grammar and a project grammar (rule pass_stmt renamed): every tree carries the tags of its own grammar',
         'samples': accepted[:2] + accepted[len(accepted) // 2: len(accepted) // 2 + 2] + [m for m, _, _ in reals[:3]],
         'entries_compared': entries,
         'nodes_compared_through_cache': nodes,
@@ -368,6 +417,8 @@ def replay(ctx, data):
     _init_worker()
     if 'synthetic' in data:
         ctx.merge(synthetic_layer()[0])
+    elif 'two_grammars' in data:
+        ctx.merge(two_grammars(0)[0])
     elif 'two_roots' in data:
         ctx.merge(two_roots((0, tuple(data['two_roots'])))[0])
     elif 'src' in data:
